@@ -407,6 +407,7 @@ static void gen_default_simcfg(vh_rng_t *rng, int hostile)
     sim_cfg.tcp_seg_mode    = (int)vh_below(rng, 3);
     sim_cfg.tcp_write_mode  = (int)vh_below(rng, 3);
     sim_cfg.wblock_permille = vh_chance(rng, 1, 3) ? 200 : 0;
+    sim_cfg.udp_wblock_permille = vh_chance(rng, 1, 4) ? 250 : 0; /* a full socket buffer: datagrams wait in the library */
     sim_cfg.legacy_poll     = r < 70 ? 0 : r < 85 ? 1 : 2;
     sim_cfg.one_fd_per_call = vh_chance(rng, 1, 5);
     sim_cfg.use_pending_write_cb = vh_chance(rng, 1, 5);
